@@ -93,6 +93,7 @@ def dry_vs_real(ctx, k):
     hash_ws = rng.random() < 0.4
     throttle = rng.choice([0, 1, 2])
     rlimit = rng.choice([0, 1, 2])
+    use_tmp = rng.random() < 0.3       # scripts in one temporary directory, for the dry and the real run alike
     S.uninstall()
     real_cls = ScriptAdapterFactory.factories[which]
     calls = []
@@ -101,7 +102,8 @@ def dry_vs_real(ctx, k):
     mon = []
     try:
         try:
-            _y, study_d = SS.load_study(spec, root_d, hash_ws=hash_ws, rlimit=rlimit, throttle=throttle, dry=True)
+            _y, study_d = SS.load_study(spec, root_d, hash_ws=hash_ws, rlimit=rlimit, throttle=throttle, dry=True,
+                                        use_tmp=use_tmp)
         except Exception:  # noqa
             return None
         ScriptAdapterFactory.factories[which] = counting
@@ -116,7 +118,8 @@ def dry_vs_real(ctx, k):
         spec_r = dict(spec)
         spec_r["env"] = {k_: dict(v) if isinstance(v, dict) else v for k_, v in spec["env"].items()}
         spec_r["env"]["variables"]["OUTPUT_PATH"] = root_r
-        _y, study_r = SS.load_study(spec_r, root_r, hash_ws=hash_ws, rlimit=rlimit, throttle=throttle, dry=False)
+        _y, study_r = SS.load_study(spec_r, root_r, hash_ws=hash_ws, rlimit=rlimit, throttle=throttle, dry=False,
+                                    use_tmp=use_tmp)
         ScriptAdapterFactory.factories[which] = scripted
         ScriptAdapterFactory.factories["local"] = scripted if which == "local" else S.make_scripted(
             S._saved_local, calls)
@@ -146,6 +149,7 @@ def dry_vs_real(ctx, k):
             diff = [p for p in set(fd) | set(fr) if fd.get(p) != fr.get(p)]
             mon.append(("all-generated", "scripts differ from the real run: %s" % sorted(diff)[:4]))
     data = {"kind": "dry-vs-real", "spec": spec, "adapter": which, "hash_ws": hash_ws, "throttle": throttle,
+            "use_tmp": use_tmp,
             "dry_return": ret_d, "real_return": ret_r}
     return Case(data, [], [], mon[:4], bool(spec.get("global.parameters")))
 
